@@ -6,7 +6,7 @@ from mc.props import c01 as C01
 
 PROP = 'C16'
 J = ('beam', 'valid')
-TAGV = [0.0, -1.0, -2.0, -4.0, -1e33]
+TAGV = [0.0, -1.0, -4.0, -150.0, -1e33]
 
 
 def beam_grammar():
@@ -55,14 +55,16 @@ def plan(tier):
         for lo in range(0, len(r2), 4000):
             sh.append(('native', gi, 2, ('rows', r2[lo:lo + 4000]), dict(cfg, unary_penalty=0.5), J))
         sh.append(('full', gi, 2, ('rows', r2[::7][:1500] if tier == 'quick' else r2[::3]), dict(cfg, unary_penalty=0.5), J))
-        if tier == 'thorough':
-            for lo in range(0, len(r2), 4000):
+        # n-best: every returned tree, not only the best one, must stay inside the beam
+        sh.append(('native', gi, 1, ('rows', r1), dict(cfg, unary_penalty=0.5, nbest=4), J))
+        for lo in range(0, len(r2), 4000):
+            if tier == 'thorough' or (lo // 4000) % 4 == cfgs.index(cfg) % 4:
                 sh.append(('native', gi, 2, ('rows', r2[lo:lo + 4000]), dict(cfg, unary_penalty=0.5, nbest=3), J))
     # other grammars with >1 tag under beam settings
     for gj, g in enumerate(G[:-1]):
         if len(g.tags) > 1:
             for cfg in (dict(pruning_size=1, use_beta=False), dict(pruning_size=len(g.tags), use_beta=True, beta=0.2), dict(pruning_size=2, use_beta=True, beta=0.01)):
-                sh.append(('native', gj, 2, ('dev', [0.0, -1.0, -4.0, -1e33], -1.0, 2 if len(g.tags) < 4 else 1, 6000), dict(cfg, unary_penalty=0.5), J))
+                sh.append(('native', gj, 2, ('dev', [0.0, -1.0, -4.0, -150.0, -1e33], -1.0, 2 if len(g.tags) < 4 else 1, 6000), dict(cfg, unary_penalty=0.5), J))
     return sh
 
 
@@ -72,7 +74,7 @@ def check(tier, seed):
     shards = core.rotate(plan(tier), seed)
     st = core.pmap(sprops.run_shard, shards)
     return sprops.finish(PROP, tier, seed, st, t0, shards,
-                         rule=('grammar in which every tag choice yields a distinct derivation (3 tags, n<=2): every tag row over {0,-1,-2,-4,-1e33} for every word x pruning_size {1,2,3} '
+                         rule=('grammar in which every tag choice yields a distinct derivation (3 tags, n<=2): every tag row over {0,-1,-4,-150,-1e33} (-150: exp underflows in float32) for every word x pruning_size {1,2,3} '
                                'x beta {off,0.5,0.2,0.01}; plus the shared grammars under beam settings. Oracle: admitted(w) from the statement; leaves must be admitted, result must be the '
                                'optimum over admitted-only derivations, failure iff none. Ties at the pruning boundary, probabilities within e^0.3 of the threshold and all-zero '
                                'probabilities are unspecified and not judged. non-trivial = >=2 differently scored admitted derivations'),
